@@ -1,7 +1,7 @@
 SPECIFICATION Spec
 CONSTANTS
   MaxMC = 4
-  Levels = 3
+  Levels = 4
   Pats = {1, 2, 3}
   MDs = {0, 1, 2, 4}
   MaxRuns = 2
